@@ -131,7 +131,7 @@ func c08Gen(s Src) c08Case {
 	case 7:
 		c.Op = "roundp"
 		c.A = c08GenNum(s)
-		c.B = iv(int64(s.Range(0, 8)))
+		c.B = iv(int64(pickOne(s, []int{s.Range(0, 8), s.Range(0, 8), s.Range(9, 30)})))
 	default:
 		c.Op = pickOne(s, c08UnOps)
 		c.A = c08GenNum(s)
